@@ -257,6 +257,59 @@ theorem expand_value_names (s : SStr) (n : Str) (h : Part.ph n ∈ expandValue s
 example : expandValue [.lit '%', .lit 'a', .lit '%', .star, .lit '%', .lit 'b'] [] =
     [.ph ['a'], .star, .lit '%', .lit 'b'] := by decide
 
+/-! ### expand on a regular expression -/
+
+theorem renderRun_map_lit (r : List Char) : renderRun (r.map .lit) = r := by
+  induction r with
+  | nil => rfl
+  | cons c r ih => simp [renderRun, ih]
+
+theorem expandRe_no_percent_aux (r acc : List Char) (hr : '%' ∉ r) (ha : '%' ∉ acc) :
+    expandRe r acc = acc.reverse ++ r := by
+  induction r generalizing acc with
+  | nil =>
+    simp only [expandRe, List.append_nil]
+    rw [expand_no_percent _ (by simpa using ha), renderRun_map_lit]
+  | cons c r ih =>
+    have hc : '%' ≠ c := fun h => hr (List.mem_cons.2 (Or.inl h))
+    have hr' : '%' ∉ r := fun h => hr (List.mem_cons.2 (Or.inr h))
+    simp only [expandRe]
+    split
+    · rw [expand_no_percent _ (by simpa using ha), renderRun_map_lit, ih [] hr' (by simp)]
+      simp
+    · rw [ih (c :: acc) hr' (by simp [ha, hc])]
+      simp
+
+/-- a pattern without `%` is left exactly as written by `expand` - its backslashes, wildcard characters and
+everything else included (`re|expand` on a pattern without placeholders is `re`) -/
+theorem expandRe_no_percent (src : List Char) (h : '%' ∉ src) : expandRe src [] = src := by
+  simpa using expandRe_no_percent_aux src [] h (by simp)
+
+/-- the scan happens inside each run between `*` / `?`: text up to the first wildcard character without a `%`
+is kept as written -/
+theorem expandRe_prefix (pre rest : List Char) (c : Char) (hc : c = '*' ∨ c = '?') (h : '%' ∉ pre)
+    (hw : ∀ x ∈ pre, x ≠ '*' ∧ x ≠ '?') :
+    expandRe (pre ++ c :: rest) [] = pre ++ c :: expandRe rest [] := by
+  suffices H : ∀ acc, '%' ∉ acc → expandRe (pre ++ c :: rest) acc = acc.reverse ++ pre ++ c :: expandRe rest [] by
+    simpa using H [] (by simp)
+  induction pre with
+  | nil =>
+    intro acc ha
+    have : (c == '*' || c == '?') = true := by rcases hc with rfl | rfl <;> decide
+    simp only [List.nil_append, expandRe, this, if_true]
+    rw [expand_no_percent _ (by simpa using ha), renderRun_map_lit]; simp
+  | cons x pre ih =>
+    intro acc ha
+    have hx := hw x (by simp)
+    have hxp : '%' ≠ x := fun e => h (List.mem_cons.2 (Or.inl e))
+    have : (x == '*' || x == '?') = false := by simp [hx.1, hx.2]
+    simp only [List.cons_append, expandRe, this]
+    rw [ih (fun e => h (List.mem_cons.2 (Or.inr e))) (fun y hy => hw y (List.mem_cons.2 (Or.inr hy))) (x :: acc) (by simp [ha, hxp])]
+    simp
+
+example : expandRe "foo\\\\bar%x%".toList [] = "foo\\\\bar%x%".toList := by decide
+example : expandRe "a\\%b*%c d%".toList [] = "a%b*%c d%".toList := by decide
+
 /-! ## 4. structural laws -/
 
 theorem all_spec (env : Env) (first : Bool) (it : Item) :
